@@ -249,6 +249,14 @@ def lifecycle_specs() -> list[dict]:
                         levels=[{"engine": "DE", "pop": 6, "gens": 1}, {"engine": "SEA", "pop": 5, "gens": 1, "lsc": {"kind": "AllChildrenStopped"}},
                                 {"engine": "LOCAL", "maxiter": 2}],
                         sprout={"kind": "simple", "far": 0.01, "limit": 2}))
+    # the local-method mechanism: demes of the middle level stop after 1-3 metaepochs and hand their best to a local search
+    # once, in the round right after they stopped
+    for mid in ({"engine": "DE", "pop": 6, "gens": 1}, {"engine": "SEA", "pop": 6, "gens": 2}, {"engine": "CMA", "gens": 2}):
+        for k, (hib, maximize) in enumerate(((False, False), (True, True))):
+            n += 1
+            out.append(dict(base, name=f"life{n}", seed=300 + n, hibernation=hib, maximize=maximize, gsc={"kind": "MetaepochLimit", "n": 9},
+                            levels=[{"engine": "SEA", "pop": 10, "gens": 1}, dict(mid, lsc={"kind": "MetaepochLimit", "n": 1 + (n % 3)}), {"engine": "LOCAL", "maxiter": 4}],
+                            sprout={"kind": "nbc_local", "gen": 1.0, "trunc": 1.0, "fil": 0.5, "limit": 2}, fn="funnels"))
     return out
 
 
